@@ -238,8 +238,20 @@ func freshScalar(t types.Type, prefix string, facts *[]*Term) Value {
 	case *types.Interface:
 		return freshIface(prefix, facts, false)
 	}
+	if freshHook != nil {
+		switch t.Underlying().(type) {
+		case *types.Slice, *types.Pointer:
+			if v := freshHook(t, prefix, facts); v != nil {
+				return v
+			}
+		}
+	}
 	return OpaqueV{What: "fresh " + prefix + " " + t.String()}
 }
+
+// freshHook creates arbitrary values of reference types (they need a region in the current
+// state); installed by the engine while a function is being verified.
+var freshHook func(t types.Type, prefix string, facts *[]*Term) Value
 
 func cellEqual(a, b Cell) bool {
 	switch x := a.(type) {
